@@ -97,6 +97,9 @@ ProvenDeadlock(w) ==
   IN
   \/ /\ \E c \in S : c \in SetOf(w.parent_waits)
      /\ ByParent
+  \* or: the library waits for a child whose output pipe has lost every reader and which lives on only because
+  \* SIGPIPE cannot reach it (holder[8]: blocked or ignored in the child; holder[9]: its stdout pipe has no reader)
+  \/ \E i \in 1..Len(w.holders) : w.holders[i][1] \in SetOf(w.parent_waits) /\ w.holders[i][8] /\ w.holders[i][9]
   \/ /\ w.parent_io # <<>>
      /\ \A k \in 1..Len(w.parent_io) : /\ SetOf(w.parent_io[k][2]) \subseteq S
                                        /\ (w.parent_io[k][2] # <<>> \/ w.parent_io[k][3])
